@@ -686,3 +686,18 @@ def c03(ctx):
             "owner holding data")
     design = [("Rebalance", "Rebalance_quick.cfg" if quick else "Rebalance_thorough.cfg", {"timeout": 2400})]
     return ledger_run(ctx, "TestC03", "c03.ndjson", "c03.summary.json", {"VERIF_SCENARIOS": 12 if quick else 300}, design, rule, "rebalancing")
+
+
+@register("C02")
+def c02(ctx):
+    quick = ctx.tier == "quick"
+    ctx.assumptions += ["every asserted key is written after the cluster reached its final size; before each stop a key stays asserted only if its newest version is on R distinct live members",
+                        "keys operated on while a member is stopping are not asserted (they were not acknowledged in a healthy cluster); all other keys must be unaffected",
+                        "abrupt stop = memberlist shut down without the leave broadcast followed by shutdown, inside the test process",
+                        "re-stabilisation is a precondition; a time-out waiting for it is inconclusive"]
+    rule = ("seeded scenarios: N in R+1..R+2 (<= 5), R in {2,3}, read-repair on/off, 13 partitions; 90 Put/Delete operations on 30 keys through random members in the healthy "
+            "cluster; then 1..R-1 members stop one after the other (random member or the coordinator, graceful or abrupt, at a quiescent point or while a workload runs on "
+            "other keys); after each re-stabilisation every key is read from every survivor; then 40 more operations and reads; non-trivial = a stopped member held a copy "
+            "of an asserted key")
+    design = [("Rebalance", "Rebalance_quick.cfg" if quick else "Rebalance_thorough.cfg", {"timeout": 2400})]
+    return ledger_run(ctx, "TestC02", "c02.ndjson", "c02.summary.json", {"VERIF_SCENARIOS": 12 if quick else 250}, design, rule, "durability")
